@@ -188,13 +188,13 @@ def gen_history(rng, nkeys, nevents, ttl_weights=True):
         ttl = rng.choice([0, 0, 2, 4, 8, 16, 16, 24, 32, 48])
         r = rng.random()
         if r < 0.22: c = ["get", k] if rng.random() < 0.7 else ["get", k] + [enc(d) for d in rng.sample([1, 5, -3, "x", "hello", 0], 2)]
-        elif r < 0.27: c = ["get_many", [rng.choice(keys) for _ in range(rng.randint(1, 4))]]
+        elif r < 0.27: c = ["get_many", [rng.choice(keys) for _ in range(rng.choice([0, 1, 1, 2, 3, 4]))]]
         elif r < 0.34: c = ["exists", k]
         elif r < 0.56: c = ["set", k, enc(rng.choice(VALUES)), ttl, rng.choice([None, None, True, False])]
-        elif r < 0.61: c = ["set_many", [[kk, enc(rng.choice(VALUES))] for kk in rng.sample(keys, rng.randint(1, min(3, nkeys)))], ttl]
+        elif r < 0.61: c = ["set_many", [[kk, enc(rng.choice(VALUES))] for kk in rng.sample(keys, rng.choice([0, 1, 1, 2, 3][:2 + min(3, nkeys)]) if nkeys >= 3 else rng.randint(0, nkeys))], ttl]
         elif r < 0.71: c = ["incr", k, rng.choice([1, 1, 1, 2, -1]), ttl]
         elif r < 0.78: c = ["delete", k]
-        elif r < 0.81: c = ["delete_many", [rng.choice(keys) for _ in range(rng.randint(1, 3))]]
+        elif r < 0.81: c = ["delete_many", [rng.choice(keys) for _ in range(rng.choice([0, 1, 2, 3]))]]
         elif r < 0.89: c = ["expire", k, rng.choice([0, 2, 8, 16, 32])]
         elif r < 0.985: c = ["get_expire", k]
         else: c = ["clear"]
